@@ -12,6 +12,7 @@ import (
 	"strconv"
 	"strings"
 	"time"
+	"unicode/utf8"
 
 	"github.com/AdguardTeam/AdGuardHome/internal/aghalg"
 	"github.com/AdguardTeam/AdGuardHome/internal/aghhttp"
@@ -281,6 +282,17 @@ func getDoubleQuotesEnclosedValue(s *string) bool {
 	return false
 }
 
+// isASCII returns true if s only contains ASCII characters.
+func isASCII(s string) (ok bool) {
+	for i := range len(s) {
+		if s[i] >= utf8.RuneSelf {
+			return false
+		}
+	}
+
+	return true
+}
+
 // parseSearchCriterion parses a search criterion from the query parameter.
 func (l *queryLog) parseSearchCriterion(
 	ctx context.Context,
@@ -305,7 +317,11 @@ func (l *queryLog) parseSearchCriterion(
 		loweredVal := strings.ToLower(val)
 		if asciiVal, err = idna.ToASCII(loweredVal); err != nil {
 			l.logger.DebugContext(ctx, "converting  to ascii", "value", val, slogutil.KeyError, err)
-		} else if asciiVal == loweredVal {
+		} else if asciiVal == loweredVal || isASCII(loweredVal) {
+			// A value that is already in ASCII needs no second form.  Besides,
+			// the conversion drops an incomplete "xn--" label, so that, for
+			// example, "shop.xn--" would also be searched for as "shop.".
+			//
 			// Purge asciiVal to prevent checking the same value
 			// twice.
 			asciiVal = ""
